@@ -167,6 +167,17 @@ Section WithDigest.
   Definition sort_peers_by_address (peers : list bytes) (a : addr) (expected_entries : N) : sort_res :=
     sort_peers_by_key peers (kbucket_key a) expected_entries.
 
+  (* Network::get_all_close_peers_in_range_or_close_group (client_get_all_close_peers_in_range_or_close_group /
+     node_get_closest_peers), the part after the kademlia query returned `found_peers`: a client drops
+     its own peer id BEFORE the selection, a node keeps itself; then the CLOSE_GROUP_SIZE + CLOSE_GROUP_SIZE/2
+     nearest are selected by sort_peers_by_address (whose too-few check thus counts what is left) *)
+  Definition expanded_close_group : N := CLOSE_GROUP_SIZE + CLOSE_GROUP_SIZE / 2.
+  Definition drop_self (self_peer : bytes) (peers : list bytes) : list bytes :=
+    filter (fun p => negb (bytes_eqb p self_peer)) peers.
+  Definition get_all_close_peers (self_peer : bytes) (client : bool) (found_peers : list bytes) (key : addr) : sort_res :=
+    let closest_peers := if client then drop_self self_peer found_peers else found_peers in
+    sort_peers_by_address closest_peers key expanded_close_group.
+
   Definition get_peers_in_range (peers : list bytes) (a : addr) (range : N) : list bytes :=
     filter (fun p => distance_u256 a (from_peer p) <=? range) peers.
 
@@ -419,6 +430,10 @@ Section Agree.
   Definition agree_sort_key (peers : list bytes) (preimage : bytes) (n : N)
              (code found required : N) (l : list bytes) : bool :=
     sort_res_eqb (sort_peers_by_key H peers (H preimage) n) code found required l.
+
+  Definition agree_close_peers (self_peer : bytes) (client : bool) (found_peers : list bytes) (a : addr)
+             (code found required : N) (l : list bytes) : bool :=
+    sort_res_eqb (get_all_close_peers H self_peer client found_peers a) code found required l.
 
   Definition agree_in_range (peers : list bytes) (a : addr) (range : N) (l : list bytes) : bool :=
     bytes_list_eqb (get_peers_in_range H peers a range) l.
